@@ -29,3 +29,5 @@ def run(ctx, rep):
     more4.rule_complex_nonzero(mod, rep)
     more4.rule_busy_fnz(mod, rep)
     more4.rule_row_block(mod, rep)
+    from ..rules import more5
+    more5.rule_snode_tests(mod, rep)
